@@ -103,10 +103,13 @@ def check_frame(fx, R, fa, st, fwd, tag):
         de = P.diff(lon)
         cross = sp.simplify(M[:, 0].cross(de))
         dot = sp.simplify(M[:, 0].dot(de))
-        N = fwd['a'] / sp.sqrt(1 - fwd['e2'] * sp.sin(lat) ** 2)
-        posfactor = sp.simplify(dot - (N + fwd['alt']) * sp.cos(lat))
-        R.check(cross == sp.zeros(3, 1) and posfactor == 0, 'E2', 'ENUConverter::setAnchor:east' + tag,
-                'col(0) x d toECEF/d lon = %s, col(0) . d toECEF/d lon = %s (expected 0 and (N+h) cos(lat) > 0): the first axis does not point east' % (cross.T.tolist(), dot),
+        # col(0) is the unit vector along d toECEF/d lon  <=>  cross = 0, (col0.de)^2 = |de|^2 and col0.de > 0 (sign fixed on the connected domain: one sample decides it)
+        unitlen = sp.simplify(dot ** 2 - de.dot(de))
+        sample = {sy: (sp.Rational(3, 10) if 'latitude' in sy.name else sp.Rational(1, 5) if 'longitude' in sy.name else sp.Integer(10) if 'altitude' in sy.name
+                       else sp.Rational(1, 150) if sy.name.endswith('e2') else sp.Integer(6378137)) for sy in dot.free_symbols}
+        positive = bool(dot.subs(sample).evalf() > 0)
+        R.check(cross == sp.zeros(3, 1) and unitlen == 0 and positive, 'E2', 'ENUConverter::setAnchor:east' + tag,
+                'col(0) x d toECEF/d lon = %s, (col(0) . d toECEF/d lon) = %s (expected parallel with a positive factor): the first axis does not point east' % (cross.T.tolist(), dot),
                 'col(0) = unit vector along d toECEF / d longitude', loc, 'E-ALG')
     north = sp.simplify(M[:, 2].cross(M[:, 0]) - M[:, 1])
     R.check(north == sp.zeros(3, 1), 'E2', 'ENUConverter::setAnchor:north' + tag, 'col(1) - col(2) x col(0) = %s: the second axis is not north' % (north.T.tolist(),),
